@@ -45,7 +45,7 @@ func tierN(tier string, quick, thorough int) int {
 
 func init() {
 	props["C01"] = func(r *Runner, tier string, rng *Rng) {
-		runChains(r, rng, tierN(tier, 260, 6000), func(i int) *ChainCfg {
+		runChains(r, rng, tierN(tier, 400, 6000), func(i int) *ChainCfg {
 			cfg := baseCfg(rng, "C01")
 			cfg.RuleStyle = 1
 			cfg.Inspections = []string{"create"}
@@ -108,6 +108,12 @@ func init() {
 			cfg.RuleStyle = rng.Pick3(1, 1, 0)
 			cfg.PopKinds = []string{"foreign", "unsigned", "tampered", "forged-keyid"}
 			cfg.ExtraPerStep = rng.Intn(2)
+			if cfg.Differ && cfg.TwinSubPct == 0 && rng.Chance(60) {
+				// the disagreement (or agreement) of the counted links is to DECIDE: nothing else is wrong
+				cfg.CleanSteps = true
+				cfg.PopKinds, cfg.ExtraPerStep = nil, 0
+				cfg.Thresholds = []int{2, 2, 3}
+			}
 			return cfg
 		}, "1-3 steps with thresholds 1-3, in 30% one counted link more than the threshold; counted links agree or one of them differs in one product path / digest / presence / hash algorithm set; the last step of a multi-step layout reports no products in a fifth of the cases; in a fifth of the chains every link records its artifacts under names that are not clean paths (./src/main.c) - rules see the clean names, the summary the recorded ones; 40% carry an inspection, often named like the first or last step; uncounted links (foreign, unsigned, tampered, forged id) carry other artifacts; rules strict (MATCH + DISALLOW *), lenient or random; the requested summary name carries leading/trailing blanks, tabs, line ends in a quarter of the cases; compared: verdict and the summary's name, materials and products. Class = (differ?, kinds, verdict).")
 	}
@@ -137,7 +143,7 @@ func init() {
 	}
 	props["C09"] = func(r *Runner, tier string, rng *Rng) {
 		kinds := []string{"noop", "create", "modify", "delete", "exit", "create-exit", "signal", "missing", "empty", "noop", "create", "noop"}
-		runChains(r, rng, tierN(tier, 260, 6000), func(i int) *ChainCfg {
+		runChains(r, rng, tierN(tier, 400, 6000), func(i int) *ChainCfg {
 			cfg := baseCfg(rng, "C09")
 			cfg.RuleStyle = rng.Intn(2)
 			ni := rng.Intn(4)
@@ -168,7 +174,11 @@ func init() {
 				fc.RuleStyle = 1
 				fc.CleanSteps = true
 				fc.ProdMatchedPct = 100
-				fc.Inspections = []string{rng.Pick([]string{"modify", "modify", "modify", "create", "noop", "delete"})}
+				fc.Inspections = []string{rng.Pick([]string{"modify", "modify", "modify", "create", "noop", "noop", "delete"})}
+				// ... or the directory is not what the last step left (one file added - also a hidden one,
+				// or one below a .git directory - or modified), or a REQUIRE stands where the queue is empty
+				fc.DirEdit = rng.Pick([]string{"", "", "", "add-hidden", "add-hidden", "add", "modify"})
+				fc.RequirePct = 25
 				return fc
 			}
 			return cfg
